@@ -1887,6 +1887,9 @@ func c14Histories(ctx *core.Ctx) []c14History {
 	hs = append(hs, c14History{"pages-seek-3/4", func(r io.ReaderAt, size int64, f *c14File) (string, string, error) {
 		return c14SeekPages(r, size, f, 3, 4)
 	}})
+	hs = append(hs, c14History{"dictfirst-pages", func(r io.ReaderAt, size int64, f *c14File) (string, string, error) {
+		return c14SeekPagesVia(r, size, f, 0, 1, true)
+	}})
 	// the library's own consumers of a RowReader (CopyRows and everything built on copyRows:
 	// Writer.ReadRowsFrom, the row path of WriteRowGroup, Buffer, SortingWriter) end the copy on
 	// `errors.Is(err, io.EOF)`: an error that merely *wraps* io.EOF is the end of input for them
@@ -2014,6 +2017,12 @@ func c14SeekRowsVia(r io.ReaderAt, size int64, f *c14File, num, den int64, via s
 }
 
 func c14SeekPages(r io.ReaderAt, size int64, f *c14File, num, den int64) (class, digest string, err error) {
+	return c14SeekPagesVia(r, size, f, num, den, false)
+}
+
+// dictFirst: no seek; the dictionary of the chunk is loaded first (FilePages.ReadDictionary), so the
+// sequential read that follows meets the dictionary page again and skips it (rbuf.Discard)
+func c14SeekPagesVia(r io.ReaderAt, size int64, f *c14File, num, den int64, dictFirst bool) (class, digest string, err error) {
 	defer func() {
 		if p := recover(); p != nil {
 			class, err = "panic", fmt.Errorf("%v | %s", p, c14Stack())
@@ -2028,7 +2037,15 @@ func c14SeekPages(r io.ReaderAt, size int64, f *c14File, num, den int64) (class,
 		k := c14SeekTarget(rg.NumRows(), num, den)
 		for ci, cc := range rg.ColumnChunks() {
 			pages := cc.Pages()
-			if err := pages.SeekToRow(k); err != nil {
+			if dictFirst {
+				k = 0
+				if fp, ok := pages.(*parquet.FilePages); ok {
+					if _, err := fp.ReadDictionary(); err != nil {
+						pages.Close()
+						return "read-error", "", err
+					}
+				}
+			} else if err := pages.SeekToRow(k); err != nil {
 				pages.Close()
 				return "read-error", "", err
 			}
